@@ -66,6 +66,7 @@ inductive Inner
   | accept (principal : String)   -- authenticated context
   | acceptAnon                    -- non-nil, unauthenticated context
   | reject (k : Reject)
+  | rejectCtx (k : Reject) (principal : String)   -- returns (authenticated context, error): still a refusal
   | nilNil                        -- returns (nil, nil): no context, no error
   deriving DecidableEq, Repr
 
@@ -103,10 +104,15 @@ structure Req where
 refuses with an AuthFailure unless the proof verifies; the PKCE cookie chain turns a ValueError into
 the chain's own ValueError (no cookie is ever sent) and passes everything else through. -/
 def outcome (cfg : Cfg) (req : Req) : Inner :=
-  if cfg.proofGate && req.proof != .valid then .reject .failure else req.inner
+  if cfg.proofGate && req.proof != .valid then .reject .failure
+  else match req.inner with
+    -- ProofAuthenticate and ChainAuthenticate both answer `nil, err`: the context is dropped
+    | .rejectCtx k p => if cfg.proofGate || cfg.pkce then .reject k else .rejectCtx k p
+    | i => i
 
 def Inner.isReject : Inner → Bool
   | .reject _ => true
+  | .rejectCtx _ _ => true
   | .nilNil => true
   | _ => false
 
@@ -125,6 +131,7 @@ def authenticate (cfg : Cfg) (req : Req) : Option Ctx :=
     | .accept p => some { authenticated := true, principal := p }
     | .acceptAnon => some anonymous
     | .reject _ => none
+    | .rejectCtx _ _ => none     -- `if err != nil` decides; the context that came with it is ignored
     | .nilNil => none
   else some anonymous
 
@@ -398,12 +405,13 @@ def bestEffortCtx (cfg : Cfg) (req : Req) : Ctx :=
   if cfg.authenticator then
     match outcome cfg req with
     | .accept p => { authenticated := true, principal := p }
+    | .rejectCtx _ p => { authenticated := true, principal := p }   -- `auth, _ := h.authenticateFunc(r)`
     | _ => anonymous
   else anonymous
 
 /-- `wrapPageWithPkce`: the page wrapper calls the authenticator itself and refuses on any error. -/
 def pageRefused (cfg : Cfg) (req : Req) : Bool :=
-  cfg.authenticator && (match outcome cfg req with | .reject _ => true | _ => false)
+  cfg.authenticator && (match outcome cfg req with | .reject _ => true | .rejectCtx _ _ => true | _ => false)
 
 def findHandler (T : Table) (name : String) : Option HandlerFact :=
   T.handlers.find? fun h => h.name = name
